@@ -9,7 +9,8 @@ import FxVerif.Model.Util
 * `cfg <total> <power>:<external address> …`, `last <n>`, `vote <oracle> <handlerPanics> <claim line>`: the attestation
   model (`Model/C03Attest.lean`) with `H` = SHA-256; the answer is the result kind, the last observed nonce, the hash of
   the executed claim (if this vote made an attestation observed), the claim stored for `ExecuteClaim` and the attestation
-  table of the nonce under vote; `run <nonce> <handlerFails>`: `ExecuteClaim`. -/
+  table of the nonce under vote; `pow <oracle> <power|none>` / `total <t>`: power changes between votes (delegation,
+  slashing, removal — environment); `run <nonce> <handlerFails>`: `ExecuteClaim`. -/
 open FxVerif FxVerif.Util FxVerif.Model.C03
 
 def str (s : String) : Option Str := (unhex s).map (·.map Char.ofNat)
@@ -104,11 +105,18 @@ def opLine (d : DState) : List String → Option (DState × String)
   | "vote" :: o :: hp :: claim => do
     let (c, _, _) ← parseClaim claim
     let before := d.st.executed.length
-    let (s', res) := vote (fun c => hashHex c.path) d.st (← o.toNat?) c (← boolOf hp)
+    let (s', res) := vote (fun c => hashHex c.path) (fun a b => decide (a ≤ b)) d.st (← o.toNat?) c (← boolOf hp)
     let kind := match res with
       | .ok => "ok" | .logicCheck => "err:logic-check" | .nonContiguous => "err:non-contiguous" | .panic => "panic"
     let exec := if s'.executed.length > before then ((hashHex c.path).take 16).toString else "-"
     pure ({ d with st := s' }, s!"{kind} last={s'.lastObserved} exec={exec} pend={pendOf s' d.focus} atts={attTable s' d.focus}")
+  | ["pow", o, p] => do
+    -- environment: the power `GetOracle(o).GetPower()` now has (`none`: the oracle is no longer found)
+    let o ← o.toNat?
+    let pw : Option Nat ← if p == "none" then pure none else (p.toNat?).map some
+    pure ({ d with st := stepWith [] (fun c => hashHex c.path) (fun _ _ => true) d.st (.setPower o pw) }, "ok")
+  | ["total", t] => do
+    pure ({ d with st := { d.st with total := (← t.toNat?) } }, "ok")
   | ["run", n, fails] => do
     let n ← n.toNat?
     let had := (d.st.pending.lookup n).isSome
